@@ -34,8 +34,8 @@ template<typename S> Canon typed_update(S& s, i64 v, int type) {
     case T_U8: { uint8_t x = static_cast<uint8_t>(0xf0u + static_cast<unsigned>(v)); s.update(x); return canon_i64(static_cast<i64>(static_cast<int8_t>(x))); }
     case T_DOUBLE: { double d = static_cast<double>(v) / 4.0; s.update(d); return canon_double(d); }
     case T_FLOAT: { float f = static_cast<float>(v) / 3.0f; s.update(f); return canon_double(static_cast<double>(f)); }
-    case T_STRING: { std::string str = "k" + std::to_string(v); s.update(str); return canon_bytes(str.data(), str.size()); }
-    case T_BYTES: { uint8_t b[24]; size_t n = 1 + static_cast<size_t>(v % 23); for (size_t i = 0; i < n; i++) b[i] = static_cast<uint8_t>(v * 7 + static_cast<i64>(i)); s.update(static_cast<const void*>(b), n); return canon_bytes(b, n); }
+    case T_STRING: { std::string str = "k" + std::to_string(v); if (v % 3 == 0) str += std::string(static_cast<size_t>(v % 40), 'x'); s.update(str); return canon_bytes(str.data(), str.size()); }   // lengths 2..42: across the 16- and 32-byte hash blocks
+    case T_BYTES: { uint8_t b[48]; size_t n = 1 + static_cast<size_t>(v % 47); for (size_t i = 0; i < n; i++) b[i] = static_cast<uint8_t>(v * 7 + static_cast<i64>(i)); s.update(static_cast<const void*>(b), n); return canon_bytes(b, n); }
     case T_NEGZERO: s.update(-0.0); return canon_double(0.0);
     case T_NAN: s.update(std::numeric_limits<double>::quiet_NaN() * (v % 2 ? 1 : -1)); return canon_double(std::numeric_limits<double>::quiet_NaN());
     case T_EMPTYSTR: { s.update(std::string()); Canon c; c.ignored = true; return c; }
